@@ -37,7 +37,7 @@ CONSTANTS RewriteRoots, IndexChecksAuth, ArchiveChecksAuth,
           ProtIds            \* which protection variants are explored
 
 \* ---- the tree and the alphabets -------------------------------------------
-C03Files == { <<"root", "index.html">>, <<"root", "d", "g">>, <<"root", "d", "g.gz">>, <<"root", "d", "index.html">>,
+C03Files == { <<"root", "index.html">>, <<"root", "d", "g">>, <<"root", "d", "g.gz">>, <<"root", "d", "index.html">>, <<"root", "d", "index.html.gz">>,
               <<"root", "e", "g">>, <<"root", "e", "s", "g">>, <<"root", "Casketfile">> }
 C03Dirs  == { <<>>, <<"root">>, <<"root", "d">>, <<"root", "e">>, <<"root", "e", "s">> }
 C03Hidden == { <<"root", "Casketfile">> }
@@ -45,13 +45,16 @@ C03Alphabet == {"d", "g", "e", "s", "index.html", "index", "pub", "nx", "..", ""
 C03AE    == {{}, {"gzip"}}
 C03Modes == {"html", "zip"}
 
-AllProts == {"none", "basic_d", "basic_d_exg", "basic_index", "internal_d", "basic_es", "internal_es"}
-ProtKind(id) == IF id = "none" THEN "none" ELSE IF id \in {"internal_d", "internal_es"} THEN "internal" ELSE "basic"
-ProtPath(id) == CASE id \in {"basic_d", "basic_d_exg", "internal_d"} -> <<"d">>
+AllProts == {"none", "basic_d", "basic_d_exg", "basic_index", "internal_d", "basic_es", "internal_es", "internal_dindex", "basic_d_exgs"}
+ProtKind(id) == IF id = "none" THEN "none" ELSE IF id \in {"internal_d", "internal_es", "internal_dindex"} THEN "internal" ELSE "basic"
+ProtPath(id) == CASE id \in {"basic_d", "basic_d_exg", "basic_d_exgs", "internal_d"} -> <<"d">>
                   [] id = "basic_index"                               -> <<"index.html">>
+                  [] id = "internal_dindex"                           -> <<"d", "index.html">>   \* an internal file that is its directory's index page
                   [] id \in {"basic_es", "internal_es"}               -> <<"e", "s">>
                   [] OTHER                                            -> <<>>
-ProtExcl(id) == IF id = "basic_d_exg" THEN {<<"d", "g">>} ELSE {}
+\* (basic_d_exgs: the exclusion written with a trailing slash, /d/g/ - it covers what is inside a
+\*  directory of that name, not the file /d/g nor its sibling /d/g.gz)
+ProtExcl(id) == IF id = "basic_d_exg" THEN {<<"d", "g">>} ELSE IF id = "basic_d_exgs" THEN {<<"d", "g", "">>} ELSE {}
 
 \* (the gzip directive wraps the response writer and leaves path and content alone: it is not a
 \*  dimension of the model; the harness adds it to every second real site and decodes the body)
